@@ -21,10 +21,13 @@ deriving DecidableEq, Repr
 /-- canonical observation -/
 structure Obs where
   survived           : Bool   -- the process was still alive at the end of the case
+  crashed            : Bool   -- … it was terminated by a panic / fatal error that the harness did not inject (bad data, bad config)
+  hung               : Bool   -- the case stopped making progress in real time (goroutines blocked on a lock stop the virtual clock)
   closeCalled        : Bool
   closeReturned      : Bool
   closePanicked      : Bool   -- Close raised a panic instead of returning
   firstCloseBad      : Bool   -- factory reuse: closing the FIRST instance (after it had run for seconds) returned an error or panicked
+  roundsBlocked      : Nat    -- foreground OCR rounds (Observation with a previous outcome) on the open instance that did not return
   progress           : Nat    -- check-pipeline calls of the instance under test that completed before its Close
   closedAtNs         : Nat    -- virtual time between the plugin's creation and the Close call.  0 = the very instant of creation:
                               -- virtual time only advances when every goroutine is durably blocked, so any value > 0 means the
@@ -72,9 +75,9 @@ def panicOk (cs : Case) (o : Obs) : Bool :=
 
 /-- C18 on one case -/
 def spec (cs : Case) (o : Obs) : Bool :=
-  o.survived &&
+  o.survived && !o.hung &&
   (!o.closeCalled || o.closeReturned) &&
-  !o.closePanicked && !o.firstCloseBad &&
+  !o.closePanicked && !o.firstCloseBad && decide (o.roundsBlocked = 0) &&
   !o.leak &&
   progressOk cs o &&
   panicOk cs o
@@ -100,7 +103,7 @@ def isCloseBeforeServiceStart (cs : Case) (o : Obs) : Bool :=
 
 /-- which conjunct fails (first match) -/
 inductive Verdict
-  | ok | panicEscaped | closeDidNotReturn | closePanicked | firstInstanceCloseFailed | noProgress
+  | ok | panicEscaped | processDied | hung | closeDidNotReturn | closePanicked | firstInstanceCloseFailed | noProgress | roundBlocked
   | closeBeforeRunning        -- KNOWN FINDING (a)
   | closeBeforeServiceStart   -- KNOWN FINDING (b)
   | closeRefusedLate          -- a Close issued after start-up had quiesced was refused by a recoverer / service
@@ -108,25 +111,34 @@ inductive Verdict
   | panicNotResumed | panicResumedLate | panicStalledOthers | panicStalledPipeline
 deriving DecidableEq, Repr
 
-def classify (cs : Case) (o : Obs) : Verdict :=
-  if !o.survived then .panicEscaped
-  else if o.closePanicked then .closePanicked
-  else if o.closeCalled && !o.closeReturned then .closeDidNotReturn
-  else if o.firstCloseBad then .firstInstanceCloseFailed
-  else if o.leak then
-    if isCloseBeforeRunning cs o then .closeBeforeRunning
-    else if isCloseBeforeServiceStart cs o then .closeBeforeServiceStart
-    else if decide (o.closedAtNs > 0) && decide (o.errNotRunning + o.errNotStarted > 0) then .closeRefusedLate
-    else if !panicOk cs o then .leakAndPanic
-    else if decide (o.leakedServiceStart > o.errNotRunning) && decide (o.leakedService = o.errNotRunning + o.errNotStarted) &&
-            decide (o.errOther = 0) && decide (o.leakedInflight = 0) then .closeSignalDropped
-    else .leakUnexplained
-  else if !progressOk cs o then .noProgress
+/-- something is left after Close: which footprint -/
+def classifyLeak (cs : Case) (o : Obs) : Verdict :=
+  if isCloseBeforeRunning cs o then .closeBeforeRunning
+  else if isCloseBeforeServiceStart cs o then .closeBeforeServiceStart
+  else if decide (o.closedAtNs > 0) && decide (o.errNotRunning + o.errNotStarted > 0) then .closeRefusedLate
+  else if !panicOk cs o then .leakAndPanic
+  else if decide (o.leakedServiceStart > o.errNotRunning) && decide (o.leakedService = o.errNotRunning + o.errNotStarted) &&
+          decide (o.errOther = 0) && decide (o.leakedInflight = 0) then .closeSignalDropped
+  else .leakUnexplained
+
+/-- nothing is left: progress and the panic clause -/
+def classifyQuiet (cs : Case) (o : Obs) : Verdict :=
+  if !progressOk cs o then .noProgress
   else if panicClauseApplies cs o && !o.resumed then .panicNotResumed
   else if panicClauseApplies cs o && !decide (o.resumedWithinNs ≤ resumeBound cs) then .panicResumedLate
   else if panicClauseApplies cs o && !o.othersTicked then .panicStalledOthers
   else if panicClauseApplies cs o && decide (cs.work > 0) && !o.pipelineDone then .panicStalledPipeline
   else .ok
+
+def classify (cs : Case) (o : Obs) : Verdict :=
+  if !o.survived then (if o.crashed then .processDied else .panicEscaped)
+  else if o.hung then .hung
+  else if o.closePanicked then .closePanicked
+  else if o.closeCalled && !o.closeReturned then .closeDidNotReturn
+  else if o.firstCloseBad then .firstInstanceCloseFailed
+  else if decide (o.roundsBlocked > 0) then .roundBlocked
+  else if o.leak then classifyLeak cs o
+  else classifyQuiet cs o
 
 /-- stable words per verdict.  The two KNOWN FINDINGS are the strings starting `close-before-running:` and
     `close-before-service-start:`; each verdict has its own prefix, and `classify` yields those two verdicts only
@@ -136,9 +148,12 @@ def classify (cs : Case) (o : Obs) : Verdict :=
 def render (cs : Case) (o : Obs) : Verdict → String
   | .ok => "ok"
   | .panicEscaped => s!"panic-escaped: a panic injected in {cs.panicSite} terminated the process"
+  | .processDied => "process-died: the process was terminated by a panic or fatal error on a background goroutine that the harness did not inject (pipeline result shape / configuration value)"
+  | .hung => "hung: the instance stopped making progress in real time (goroutines of a flow blocked on a lock that is never released; the virtual clock cannot advance)"
   | .closeDidNotReturn => "close-did-not-return: Close had not returned when the case ended"
   | .closePanicked => "close-panicked: Close raised a panic instead of returning"
   | .firstInstanceCloseFailed => "first-instance-close-failed: closing the factory's first instance after it had run returned an error or panicked"
+  | .roundBlocked => s!"round-blocked: {o.roundsBlocked} Observation call(s) on the open instance did not return within 5 virtual seconds (a background flow holds a lock of a shared store for ever)"
   | .noProgress => s!"no-progress: the instance stayed open for {o.closedAtNs} ns with payloads on every tick and completed no check-pipeline call"
   | .closeBeforeRunning => s!"close-before-running: Close returned not-running for {o.errNotRunning} services and they kept running"
   | .closeBeforeServiceStart => s!"close-before-service-start: Close was refused by {o.errNotStarted} services that had not completed their start (not-running for {o.errNotRunning} more); they started afterwards and can no longer be closed"
@@ -155,8 +170,8 @@ def explain (cs : Case) (o : Obs) : String := render cs o (classify cs o)
 
 /-- tag of a failing verdict (the known findings are matched on fail string AND tag) -/
 def Verdict.tag : Verdict → String
-  | .ok => "" | .panicEscaped => "panic-escaped" | .closeDidNotReturn => "close-did-not-return"
-  | .closePanicked => "close-panicked" | .firstInstanceCloseFailed => "first-instance-close-failed" | .noProgress => "no-progress"
+  | .ok => "" | .panicEscaped => "panic-escaped" | .processDied => "process-died" | .hung => "hung" | .closeDidNotReturn => "close-did-not-return"
+  | .closePanicked => "close-panicked" | .firstInstanceCloseFailed => "first-instance-close-failed" | .noProgress => "no-progress" | .roundBlocked => "round-blocked"
   | .closeBeforeRunning => "close-before-running" | .closeBeforeServiceStart => "close-before-service-start"
   | .closeRefusedLate => "close-refused-after-start-up"
   | .leakAndPanic => "leak-and-panic" | .closeSignalDropped => "close-signal-dropped" | .leakUnexplained => "leak-unexplained"
@@ -209,8 +224,8 @@ def predict (fx : Fixes) (cs : Case) (closedAtNs nNotRunning0 nNotStarted0 : Nat
   let nOk := cs.services - nNotRunning - nNotStarted
   let ss := nNotRunning * la.serviceStart + nNotStarted * lb.serviceStart + nOk * lo.serviceStart
   let sv := nNotRunning * la.service + nNotStarted * lb.service + nOk * lo.service
-  { survived := survived, closeCalled := closeCalled && survived, closeReturned := closeCalled && survived,
-    closedAtNs := closedAtNs, closePanicked := false, firstCloseBad := false,
+  { survived := survived, crashed := false, hung := false, closeCalled := closeCalled && survived, closeReturned := closeCalled && survived,
+    closedAtNs := closedAtNs, closePanicked := false, firstCloseBad := false, roundsBlocked := 0,
     progress := if survived then 1 else 0,   -- instances share nothing (each has its own runner): a second one works like a first
     errNotRunning := nNotRunning, errNotStarted := nNotStarted, errOther := 0,
     leakedServiceStart := if closeCalled then ss else 0, leakedService := if closeCalled then sv else 0, leakedAux := 0, leakedInflight := 0,
